@@ -1,4 +1,5 @@
 import DV
+import DVP.Lemmas.Trees
 /-!
 # C01 — every integrator attains its declared order of accuracy
 
@@ -103,5 +104,31 @@ theorem richardson_never_lower : ∀ p ∈ List.range 15, ∀ R ∈ [2, 3, 4, 5]
 clause "with three or more levels strictly higher" only holds under that guard -/
 theorem richardson_raised_partial : ∀ p ∈ List.range 15, ∀ R ∈ [3, 4, 5], 1 ≤ p → p ≤ R - 2 →
     p < effectiveOrder p R := by decide +kernel
+
+/-! ## what an accepted check means: every tree -/
+
+/-- **The checker misses no tree**: whenever `checkOrder` accepts a (partitioned) table up to order `p`,
+the order condition `|b·Φ(τ) − 1/γ(τ)| ≤ 1e-12` holds for EVERY well-formed coloured rooted tree `τ` in
+Butcher-product form with at most `p` vertices (for a splitting scheme: every tree with alternating
+colours).  Proved for every table, by induction over the enumeration with its de-duplication. -/
+theorem accepted_order_covers_every_tree (T : PTab) (p : Nat) (h : checkOrder T p tol = true)
+    (τ : BTree) (hwf : τ.wf T = true) (hs : τ.size ≤ p) : treeCond T tol τ = true :=
+  DVP.Trees.checkOrder_sound T p tol h τ hwf hs
+
+/-- … in particular for every Runge–Kutta table whose per-method theorem above holds: all rooted trees
+up to the declared order -/
+theorem rk_order_covers_every_tree (T : RKTab) (h : RKOrderOK T = true)
+    (τ : BTree) (hwf : τ.wf (ofRK T) = true) (hs : τ.size ≤ T.order) : treeCond (ofRK T) tol τ = true := by
+  unfold RKOrderOK at h
+  simp only [Bool.and_eq_true] at h
+  exact DVP.Trees.checkOrder_sound (ofRK T) T.order tol h.1.1 τ hwf hs
+
+/-- non-vacuity: the bushy tree with four vertices and the tall tree with four vertices are well-formed
+for RK4, distinct, and covered by `order_RK4Solver` -/
+example : let bushy := BTree.graft (BTree.graft (BTree.graft (.leaf 0) (.leaf 0)) (.leaf 0)) (.leaf 0)
+          let tall := BTree.graft (.leaf 0) (BTree.graft (.leaf 0) (BTree.graft (.leaf 0) (.leaf 0)))
+          bushy.wf (ofRK tab_RK4Solver) = true ∧ tall.wf (ofRK tab_RK4Solver) = true ∧ bushy.size = 4 ∧ tall.size = 4 ∧
+          bushy.gamma = 4 ∧ tall.gamma = 24 ∧ treeCond (ofRK tab_RK4Solver) tol bushy = true ∧ treeCond (ofRK tab_RK4Solver) tol tall = true := by
+  decide +kernel
 
 end DVP.C01
